@@ -15,6 +15,7 @@ import (
 	"regexp"
 	"sort"
 	"strings"
+	"sync/atomic"
 	"time"
 
 	"github.com/blevesearch/bleve/v2"
@@ -205,10 +206,11 @@ func render(idx bleve.Index) (string, error) {
 func adjacentGroup(search.DocumentMatchCollection, int, int) bool { return false }
 
 type layout struct {
-	gated bool // park the first merge task and let the remaining operations land while it is in flight
-	name  string
-	disk  bool
-	cfg   map[string]interface{}
+	pileUp bool // park the persister at its idle point (unsafe batches): every batch is still an in-memory segment when it resumes, so that one persister round merges them all in memory
+	gated  bool // park the first merge task and let the remaining operations land while it is in flight
+	name   string
+	disk   bool
+	cfg    map[string]interface{}
 	// parts: partition of the history into consecutive batches (nil = one op per batch)
 	parts func(n int) [][]int
 	post  string // "" | forcemerge | reopen | forcemerge+reopen
@@ -268,6 +270,8 @@ func apply(idx bleve.Index, ops []op, parts [][]int) error {
 
 var unsafe2 = map[string]interface{}{"unsafe_batch": true, "scorchPersisterOptions": map[string]interface{}{"NumPersisterWorkers": 2, "MaxSizeInMemoryMergePerWorker": 1}}
 
+var unsafe1 = map[string]interface{}{"unsafe_batch": true}
+
 func layouts(quick bool) []layout {
 	ls := []layout{
 		{name: "disk-aggressive-merge", disk: true, cfg: map[string]interface{}{"scorchMergePlanOptions": bx.AggressiveMergePlan}},
@@ -276,6 +280,8 @@ func layouts(quick bool) []layout {
 		{name: "disk-operations-land-while-merge-in-flight", disk: true, gated: true, cfg: map[string]interface{}{"scorchMergePlanOptions": bx.AggressiveMergePlan}},
 		{name: "disk-nomerge+forcemerge+reopen", disk: true, cfg: map[string]interface{}{"scorchMergePlanOptions": bx.NoMergePlan}, post: "forcemerge+reopen"},
 		{name: "disk-unsafe-2-persister-workers", disk: true, cfg: unsafe2},
+		{name: "disk-unsafe-2-persister-workers-all-batches-merged-in-memory-in-one-round", disk: true, pileUp: true, cfg: unsafe2},
+		{name: "disk-unsafe-1-persister-worker-all-batches-merged-in-memory-in-one-round", disk: true, pileUp: true, cfg: unsafe1},
 		{name: "mem-zap15", cfg: map[string]interface{}{"forceSegmentType": "zap", "forceSegmentVersion": 15}},
 	}
 	if !quick {
@@ -288,12 +294,36 @@ func layouts(quick bool) []layout {
 	return ls
 }
 
+var piledUp int64 // builds in which every batch was still its own in-memory segment when the persister resumed
+
 func build(l layout, ops []op, parts [][]int, dir string) (bleve.Index, error) {
 	p := ""
 	if l.disk {
 		p = dir + "/" + l.name
 	}
 	cfg := bx.CopyConfig(l.cfg)
+	if l.pileUp {
+		g := bx.AcquireGateFor(scorch.EventKindPurgerCheck)
+		defer g.Free()
+		cfg["eventCallbackName"] = g.Name()
+		g.Arm()
+		idx, err := bleve.NewUsing(p, bleve.NewIndexMapping(), scorch.Name, scorch.Name, cfg)
+		if err != nil {
+			return nil, err
+		}
+		parked := g.WaitParked(3 * time.Second)
+		if err := apply(idx, ops, parts); err != nil {
+			g.Release()
+			idx.Close()
+			return nil, err
+		}
+		if parked && strings.Count(bx.ScorchLayout(idx), "|") == len(parts)-1 {
+			atomic.AddInt64(&piledUp, 1)
+		}
+		g.Release()
+		bx.Quiesce(idx, 3*time.Second)
+		return idx, nil
+	}
 	if l.gated {
 		g := bx.AcquireGate()
 		defer g.Free()
@@ -557,9 +587,10 @@ func Run(r *mc.Run) {
 		}
 		r.Eval(1)
 		r.Outcome(fmt.Sprintf("%s|%d", want[strings.LastIndex(want, "count="):], len(want)/400))
-		for _, v := range variants(len(ops)) {
+		for vi, v := range variants(len(ops)) {
 			l := v.l
-			idx, err := build(l, ops, v.parts, dir)
+			vdir := fmt.Sprintf("%s/v%d", dir, vi) // one directory per variant: the same layout occurs with several batchings
+			idx, err := build(l, ops, v.parts, vdir)
 			rep := map[string]any{"history": hist, "layout": l.name, "batches": v.pname}
 			if err != nil {
 				r.Violation("layout-error:"+l.name, fmt.Sprintf("%v: %v", rep, err), rep)
@@ -568,6 +599,7 @@ func Run(r *mc.Run) {
 			got, err := render(idx)
 			lay := bx.ScorchLayout(idx)
 			idx.Close()
+			os.RemoveAll(vdir)
 			r.Eval(1)
 			if err != nil {
 				r.Violation("search-error:"+l.name, fmt.Sprintf("%v: %v", rep, err), rep)
@@ -625,7 +657,7 @@ func Run(r *mc.Run) {
 	// operations (merge parked in flight).
 	var multi []layout
 	for _, l := range lays {
-		if l.name == "disk-partial-merge" || l.gated || l.name == "disk-aggressive-merge" || l.post == "forcemerge-before-last" {
+		if l.name == "disk-partial-merge" || l.gated || l.pileUp || l.name == "disk-aggressive-merge" || l.post == "forcemerge-before-last" {
 			multi = append(multi, l)
 		}
 	}
@@ -670,5 +702,6 @@ func Run(r *mc.Run) {
 		}, fi == nfam4/2)
 	})
 	r.Count("layouts_with_fewer_segments_than_baseline", nseg)
+	r.Count("builds_where_all_batches_were_merged_in_memory_by_one_persister_round", atomic.LoadInt64(&piledUp))
 	r.Sample(map[string]any{"history": "I(p,v0) I(q,v2) D(p)", "layouts": "baseline per-op | [[0 1] [2]] | [[0] [1 2]] | one batch | disk-aggressive-merge | disk-nomerge+forcemerge+reopen | disk-unsafe-2-persister-workers | mem-zap15"})
 }
